@@ -154,7 +154,7 @@ def all_ops(nifs):
                 "sw%s:0" % w, "sw%s:1" % w, "SW%s:0" % w, "SW%s:1" % w, "rs" + w]
         for k in range(nifs + 1):
             ops += ["dn%s:%d" % (w, k), "up%s:%d" % (w, k)]
-        ops += ["de%s:0" % w]
+        ops += ["de%s:0" % w, "xa%s:0" % w, "xu%s:0" % w]   # xa/xu: down/up with the m.mu lock probe
     return ops
 
 
@@ -173,7 +173,7 @@ def random_walk(rng, nifs, length):
             ops += [rng.choice(["pl", "pt"]) + w, "sd" + o, "dl%s:999" % w, "dl%s:999" % o]
         elif r < 0.58:    # flap an interface
             k = rng.randrange(nifs + 1)
-            ops += [rng.choice(["dn", "dn", "de", "up"]) + "%s:%d" % (w, k) for _ in range(rng.randint(1, 3))]
+            ops += [rng.choice(["dn", "dn", "de", "up", "xa", "xu"]) + "%s:%d" % (w, k) for _ in range(rng.randint(1, 3))]
         elif r < 0.64:
             ops += [rng.choice(["SW", "SW", "sw"]) + "%s:%d" % (w, rng.randint(0, 1))]
         elif r < 0.68:    # partition: both lose, drop everything in flight
